@@ -129,6 +129,46 @@ theorem sphDivergence_conservative_uniform_away_from_axis (F : List Int → ℝ 
         mul_le_mul_of_nonneg_right (add_le_add (add_le_add (add_le_add g1 g2) g3) g4) (sq_nonneg h)
     _ = _ := by ring
 
+/-! ### tie to the polynomial statements of `Props/C01.lean` -/
+
+theorem hasDerivAt_quartic (a0 a1 a2 a3 a4 x : ℝ) :
+    HasDerivAt (fun y : ℝ => a0 + a1 * y + a2 * y^2 + a3 * y^3 + a4 * y^4)
+      (a1 + 2 * a2 * x + 3 * a3 * x^2 + 4 * a4 * x^3) x := by
+  have h1 : HasDerivAt (fun y : ℝ => a1 * y) a1 x := ((hasDerivAt_id x).const_mul a1).congr_deriv (by simp)
+  have h2 : HasDerivAt (fun y : ℝ => a2 * y^2) (2 * a2 * x) x :=
+    ((hasDerivAt_pow 2 x).const_mul a2).congr_deriv (by norm_num; ring)
+  have h3 : HasDerivAt (fun y : ℝ => a3 * y^3) (3 * a3 * x^2) x :=
+    ((hasDerivAt_pow 3 x).const_mul a3).congr_deriv (by norm_num; ring)
+  have h4 : HasDerivAt (fun y : ℝ => a4 * y^4) (4 * a4 * x^3) x :=
+    ((hasDerivAt_pow 4 x).const_mul a4).congr_deriv (by norm_num; ring)
+  exact (((((hasDerivAt_const x a0).add h1).add h2).add h3).add h4).congr_deriv (by ring)
+
+theorem deriv_poly4 (c0 c1 c2 c3 c4 : ℝ) : deriv (poly4 c0 c1 c2 c3 c4) = dpoly4 c1 c2 c3 c4 :=
+  funext fun x => (hasDerivAt_quartic c0 c1 c2 c3 c4 x).deriv
+
+theorem deriv_dpoly4 (c1 c2 c3 c4 : ℝ) : deriv (dpoly4 c1 c2 c3 c4) = ddpoly4 c2 c3 c4 := by
+  funext x
+  have h := (hasDerivAt_quartic c1 (2 * c2) (3 * c3) (4 * c4) 0 x).deriv
+  have e : dpoly4 c1 c2 c3 c4 = fun y : ℝ => c1 + 2 * c2 * y + 3 * c3 * y^2 + 4 * c4 * y^3 + 0 * y^4 := by
+    funext y; simp [dpoly4]
+  rw [e, h]; simp only [ddpoly4]; ring
+
+/-- on polynomial fields the continuum operators of the `_smooth` theorems are the ones of `Props/C01.lean` -/
+theorem iteratedDeriv_poly4 (c0 c1 c2 c3 c4 x : ℝ) :
+    iteratedDeriv 1 (poly4 c0 c1 c2 c3 c4) x = dpoly4 c1 c2 c3 c4 x ∧
+    iteratedDeriv 2 (poly4 c0 c1 c2 c3 c4) x = ddpoly4 c2 c3 c4 x := by
+  refine ⟨by rw [iteratedDeriv_one, deriv_poly4], ?_⟩
+  rw [iteratedDeriv_succ, iteratedDeriv_one, deriv_poly4, deriv_dpoly4]
+
+/-- the two sampling conventions agree on scalar fields, and the continuum of `polarLaplace_smooth` on a
+quartic is the continuum of `polarLaplace_poly` -/
+theorem polarLaplace_continuum_poly4 (c0 c1 c2 c3 c4 x0 h ρ : ℝ) (i : Int) :
+    sampleAx1 (fun _ => poly4 c0 c1 c2 c3 c4) x0 h [i] = sample1 (poly4 c0 c1 c2 c3 c4) x0 h [i] ∧
+    iteratedDeriv 2 (poly4 c0 c1 c2 c3 c4) ρ + iteratedDeriv 1 (poly4 c0 c1 c2 c3 c4) ρ / ρ
+      = ddpoly4 c2 c3 c4 ρ + dpoly4 c1 c2 c3 c4 ρ / ρ := by
+  refine ⟨rfl, ?_⟩
+  rw [(iteratedDeriv_poly4 c0 c1 c2 c3 c4 ρ).1, (iteratedDeriv_poly4 c0 c1 c2 c3 c4 ρ).2]
+
 /-! ### non-vacuity: concrete smooth, non-polynomial fields meet the hypotheses -/
 
 /-- `f = sin` on the lattice `1/4 + n/2`, cell `i = 2` (`ρ = 5/4`): all derivatives are bounded by 1 -/
